@@ -20,7 +20,7 @@ ASSUMPTIONS = ["failpoints raise a RuntimeError subclass at the entry of a layer
                "sites at or below the transport cipher in the byte stream (network, segments in both directions, noise on receive) lose bytes of an ordered encrypted stream when they fail: "
                "for them same-connection follow-ups are only required not to block, and everything is required to work after a reconnect",
                "after-failure follow-ups run in helper threads so that a wedged stack is observed as a blocked thread instead of hanging the check"]
-REQUIRED = ["keyfetch_failure_cases", "keyfetch_failure_ok", "keyfetch_failure:no-keys-answer", "keyfetch_failure:send-raises", "keyfetch_failures_injected", "placed_followup_phases", "placed_followups_ok", "placed_round:me/send", "placed_round:me/recv", "placed_round:fresh/send", "placed_round:fresh/recv", "placed_round:fresh-any/send", "concurrent_followup_phases", "concurrent_followups_ok", "real_upward_failure_cases", "real_upward_failure_ok", "real_write_error_cases", "real_write_error_ok", "real_write_error:socket", "real_write_error:asyncore", "cases", "failpoints_reached", "natural_failures", "locks_censused", "followups_ok", "reconnect_followups_ok",
+REQUIRED = ["keyreq_followup_ok", "keyfetch_failure_cases", "keyfetch_failure_ok", "keyfetch_failure:no-keys-answer", "keyfetch_failure:send-raises", "keyfetch_failures_injected", "placed_followup_phases", "placed_followups_ok", "placed_round:me/send", "placed_round:me/recv", "placed_round:fresh/send", "placed_round:fresh/recv", "placed_round:fresh-any/send", "concurrent_followup_phases", "concurrent_followups_ok", "real_upward_failure_cases", "real_upward_failure_ok", "real_write_error_cases", "real_write_error_ok", "real_write_error:socket", "real_write_error:asyncore", "cases", "failpoints_reached", "natural_failures", "locks_censused", "followups_ok", "reconnect_followups_ok",
             "sites", "other_thread_followups"]
 TIMEOUT = {"quick": 600, "thorough": 7200}
 
@@ -206,6 +206,9 @@ def run_case(acc, seed, tag, d):
             c.app.entity_callbacks["presence"] = c.app.onPresence
             st["fired"] = True
             return
+        elif kind == "key-request-without-t":
+            # a key-count notification lacking its timestamp attribute (the library cannot parse it: the error goes to the caller)
+            W.server.to_client(A, ("notification", {"from": "s.whatsapp.net", "type": "encrypt", "id": "nkbad1"}, [("count", {"value": "3"}, [], None)], None))
         elif kind == "unknown-stream-error":
             W.server.to_client(A, ("stream:error", {}, [("weird-condition", {}, [], None)], None))
         W.run(max_steps=W.steps + 3000)
@@ -309,6 +312,14 @@ def run_case(acc, seed, tag, d):
                 return
             fu.append((op, kind, thr, ok))
         res["followups"] = fu
+        if d["kind"] == "key-request-without-t" and W.clients[A].connected:
+            # the same kind of operation again, well-formed: the server asks for keys, an upload has to follow
+            acct = W.server.accounts.get(W.clients[A].jid)
+            n0 = len(acct.uploads) if acct else 0
+            W.server.ask_for_keys(A, 2)
+            W.run(max_steps=W.steps + 4000)
+            acct = W.server.accounts.get(W.clients[A].jid)
+            res["keyreq_followup"] = (len(acct.uploads) if acct else 0) > n0
         # ... and from two threads at once: the thread that lived through the failure and a fresh one (the failure must not have
         # left anything behind that lets either of them slip past the others)
         if not critical and W.clients[A].connected and not res["blocked"]:
@@ -437,7 +448,7 @@ def run_case(acc, seed, tag, d):
     if d["kind"] == "failpoint":
         if not any(("FailpointError" in str(e)) for e in errs):
             bad("error-swallowed:%s" % desc_site, "the failure was not reported to any caller (errors seen: %s)" % ([str(e)[:80] for e in errs][:2]))
-    elif d["kind"] in ("unencodable", "oversized", "send-while-down", "undecodable-frame", "unknown-picture-notification", "app-callback-raises", "unknown-stream-error"):
+    elif d["kind"] in ("unencodable", "oversized", "send-while-down", "undecodable-frame", "unknown-picture-notification", "app-callback-raises", "unknown-stream-error", "key-request-without-t"):
         if not errs:
             bad("error-swallowed:%s" % d["kind"], "the failure was not reported to any caller")
     # (b) lock census
@@ -462,6 +473,12 @@ def run_case(acc, seed, tag, d):
             return
         else:
             acc.count("placed_followups_ok")
+    if res.get("keyreq_followup") is False:
+        bad("followup-not-processed:key-request", "after a key request the library could not parse, the next (well-formed) key request led to no upload")
+        W.close()
+        return
+    if res.get("keyreq_followup"):
+        acc.count("keyreq_followup_ok")
     # (c) follow-ups
     for op, kind, thr, ok in res.get("followups", []):
         if not ok:
@@ -500,7 +517,7 @@ def run_case(acc, seed, tag, d):
     W.close()
 
 
-NATURALS = ["unencodable", "send-while-down", "undecodable-frame", "unknown-picture-notification", "app-callback-raises", "unknown-stream-error"]
+NATURALS = ["unencodable", "send-while-down", "undecodable-frame", "unknown-picture-notification", "app-callback-raises", "unknown-stream-error", "key-request-without-t"]
 
 
 def keyfetch_failure_case(acc, seed, tag, how):
